@@ -20,6 +20,12 @@ uncompressed metadata, walk order independent of table order; and tar2sqfs image
 the real sqfs2tar and back through tar2sqfs: partition of the names into inodes, link counts, types, contents; and the real
 sqfs_hard_link_filter_create (props/C04/h_hlfilter.c) over a fake iterator with adversarial (dev, inode) keys - inode references of
 uncompressed / compressed tables, references that agree in their low 32 bits, st_ino-like 64 bit values, several devices.
+ImgTarFull leg (session 3, builder E2, props/C04/imgtarfull.py): the COMPOSED models of tar2sqfs and sqfs2tar of coq/ImgTarFull
+(archive entries -> process_tarball + copy_xattr + write_file -> fstree -> block processor -> xattr writer / flush -> write_image ->
+image BYTES -> reader models -> walk + hard link filter + xattr lists + contents) against the real tar2sqfs | sqfs2tar on archives
+with sparse files, PAX xattr records (shared / repeated / foreign-prefix keys, on hard link records), files around the block size:
+entries incl. contents and xattr record ORDER exact, and the archive bytes equal to write_archive of the prediction; PAX rule
+"the last record of a keyword wins" evaluated on the implementation (finding F26).
 sqfs2tar option leg (session 3 strengthening, props/C04/s2topt.py): gensquashfs images whose names are string extensions / prefixes of
 the selected paths through the real sqfs2tar under --subdir (one / several / nested / a file / missing) x --keep-as-dir x --root-becomes x
 --no-skip x --no-xattr x --no-hard-links against an independent, component-wise statement of what the manual promises; the selection
@@ -45,6 +51,7 @@ import gen  # noqa: E402
 import oracle as O  # noqa: E402
 import targen as T  # noqa: E402
 import imgtar as IT  # noqa: E402
+import imgtarfull as ITF  # noqa: E402
 import hlimg as HL  # noqa: E402
 import s2topt as SO  # noqa: E402
 
@@ -525,6 +532,18 @@ def imgtar_stage(ctx, info, cases=None):
     return IT.stage(ctx, info, hp, drv, wd, n, cases=cases)
 
 
+def full_model():
+    """extracted drv_conv (coq/ImgTarFull: t2s_full -> image bytes -> sqfs2tar_full) behind props/C04/full_driver.ml"""
+    return core.build_model_driver("C04full", "ExtractC04Full.v", os.path.join(HERE, "full_driver.ml"))
+
+
+def imgtarfull_stage(ctx, info, cases=None):
+    """ImgTarFull leg: the composed models of tar2sqfs and sqfs2tar incl. contents and xattr lists against the real tools"""
+    wd = tempfile.mkdtemp(dir=ctx.scratch)
+    n = 100 if ctx.tier == "quick" else 2000
+    return ITF.stage(ctx, info, full_model(), wd, n, cases=cases)
+
+
 def run(ctx):
     info = B.build("asan")
     h = B.compile_harness(info, [os.path.join(HERE, "h_tar.c")], "h_tar")
@@ -540,6 +559,10 @@ def run(ctx):
                     "props/C04/h_pt.c (process_tarball #included with fstree_add_generic renamed to a recorder that calls the real one; real "
                     "tar iterator, real sqfs_writer), props/C04/imgtar_driver.ml, imgtar.py (archive generator, canonical text of add calls and "
                     "entry sequences); coq/C11 + coq/ImgPost models of lib/fstree (tied by C11 / C01)",
+                    "props/C04/full_driver.ml, imgtarfull.py (generator of archives with old-GNU sparse members and SCHILY.xattr PAX records, a "
+                    "small PAX record reader of its own for the 'last record wins' oracle); coq/ImgE2E + its layers (C08 block processor, C01 "
+                    "xattr writer, ImgXattr flush, Image.write_image, C05 / C10 reader models, the xattr reader SPECIFICATION) as tied by C01 / C03 / "
+                    "C05 / C08 / C10; the driver's oracle instantiation (no data compression, store-mode metadata compressor, polynomial checksum)",
                     "Python 3.11 tarfile and GNU tar 1.34 as independent readers/writers; ASan/UBSan verdicts",
                     "props/C04/hlimg.py + vlib/sqfsimg.py Builder/Image (hand-built images with hard link groups over a > 64 KiB inode "
                     "table; every built image is re-parsed and validated by the independent reader before it is used), props/C04/h_hlfilter.c "
@@ -561,12 +584,19 @@ def run(ctx):
         "file contents of every entry of the new image (taken from reimage_all: xattr writer order, data as read), files_attached "
         "(file sizes as announced), one inode reference per inode number; hypotheses of ImgPost.pack_paths_roundtrip (input_okb, "
         "attached_okb, trace_fits) and success of tar2sqfs_tree / post_process / serialize_fstree; names shorter than TAR_MAX_PATH_LEN",
+        "tar2sqfs_image_reads_back / conv_roundtrip_full / conv_fixpoint_full / conv_second_round_full / conv_round_fixpoint (coq/ImgTarFull): "
+        "contents and xattr lists are NO LONGER assumed - they are read from the image bytes by the reader models; hypotheses: archive in "
+        "sqfs2tar's shape (tree_shapeb), every regular entry's stream as long as its header says (data_ok), for the exact xattr order and the "
+        "fixpoints every entry's keys supported / bounded / pairwise different (xattrs_ok), the composed run succeeds (t2s_full = PDone) inside "
+        "ImgE2E's decidable bounds (e2e_okb), oracle contracts of the data / metadata compressor pairs, loop bounds of the reader models; "
+        "tar2sqfs without --root-becomes / -k / --no-skip in the theorems (modelled and tied); the xattr reader is the specification from "
+        "format.adoc, not a model of xattr_reader.c; one inode reference per inode number",
         "image_view_of_adds / adds_denote: add lists with paths below the root, no path twice (ops_okb), hard links resolving through "
         "hard link adds (links_resolveb); a root entry of the archive is modelled and tied but outside these theorems",
         "subdir_* (coq/C04/Subdir*.v): names as lists of '/'-free (for the collision theorems: non-empty) components, --subdir / "
         "--root-becomes arguments as options.c's canonicalize_name leaves them; sockets and the hard link filter outside the selection model",
         "not modelled (search oracle only): option parsing of sqfs2tar (canonicalisation of the --subdir / --root-becomes arguments), tar2sqfs --exclude, uid/gid "
-        "truncation to 32 bit in tree_node_t, copy_xattr / write_file, option parsing, stream compression",
+        "truncation to 32 bit in tree_node_t, option parsing, stream compression (copy_xattr / write_file ARE modelled since coq/ImgTarFull)",
     ]
 
     if ctx.replay:
@@ -606,6 +636,19 @@ def run(ctx):
                                   **dict(sorted(it["stats"].items())))
     ctx.add_samples(it["samples"])
     for sig, what, rep, no_input in it["viols"]:
+        if sig in seen:
+            continue
+        seen.add(sig)
+        ctx.violation(sig, what, rep, no_input=no_input)
+
+    # ---- ImgTarFull leg: the same with file contents (sparse files) and xattr lists, through the image BYTES (coq/ImgTarFull)
+    itf = imgtarfull_stage(ctx, info)
+    ctx.coverage["evaluations"] += itf["ncases"]
+    ctx.coverage["traces_validated_against_impl"] += itf["ncases"] - len(itf["diffs"])
+    ctx.coverage["distinct_nontrivial"] += itf["stats"].get("C:conv", 0)
+    ctx.coverage["imgtarfull"] = dict(archives=itf["ncases"], tie_C_differences=len(itf["diffs"]), **dict(sorted(itf["stats"].items())))
+    ctx.add_samples(itf["samples"])
+    for sig, what, rep, no_input in itf["viols"]:
         if sig in seen:
             continue
         seen.add(sig)
@@ -734,6 +777,13 @@ def replay(ctx, info, h, drv, hs):
             for v, cc in viols:
                 sig, msg = classify(v, cc)
                 ctx.violation(sig, "C04 violated by the tools (%s): %s" % (cc[3], msg), replay_obj_tool(cc, msg))
+    elif kind == "imgtarfull":
+        o = dict(dict(kt=1, nr=0, root=None, duid=0, dgid=0, dperm=0o755, dmtime=0, nolinks=0, noxs=0, noxt=0, ntp=0, noskip=0, hi=0), **r["opts"])
+        case = (base64.b64decode(r["archive_b64"]), o, r.get("source", "replay"))
+        itf = imgtarfull_stage(ctx, info, cases=[case])
+        ctx.coverage["evaluations"] = 1
+        for sig, what, rep, no_input in itf["viols"]:
+            ctx.violation(sig, what, rep, no_input=no_input)
     elif kind == "hlimage":
         hv, hstats = HL.stage(ctx, info, cases=[{k: r[k] for k in ("kind", "how", "seed", "order", "nfill", "ngroups")}])
         ctx.coverage["evaluations"] = hstats["images"]
@@ -776,4 +826,5 @@ def setup():
     regen_constants(h)
     core.build_model_driver("C04", "ExtractC04.v", os.path.join(HERE, "driver.ml"))
     core.build_model_driver("C04imgtar", "ExtractC04ImgTar.v", os.path.join(HERE, "imgtar_driver.ml"))
+    full_model()
     subdir_model()
